@@ -978,15 +978,17 @@ pub mod hx_rewrite {
         step(0);
         ok
     }
-    fn cut_tt(n_ands: u8, canary: bool) {
+    /// node indices of the fanins are CONCRETE (a fixed shape per harness), polarities, the cut and the minterm are symbolic: CBMC unrolls eval_tt's binary
+    /// recursion along the concrete shape; with symbolic fanin nodes it unrolls 2^bound calls and does not finish
+    fn cut_tt(shape: [(u32, u32); 3], canary: bool) {
         let mut aig = base_module(4);
-        let mut k = 0u8;
-        while k < n_ands {
-            let (a, b) = (any_edge(4 + k), any_edge(4 + k));
-            aig.nodes.push(AigNode::And { fanin0: a, fanin1: b });
+        let negs: [bool; 6] = kani::any();
+        let mut k = 0;
+        while k < 3 {
+            aig.nodes.push(AigNode::And { fanin0: AigEdge::new(shape[k].0, negs[2 * k]), fanin1: AigEdge::new(shape[k].1, negs[2 * k + 1]) });
             k += 1;
         }
-        let root = 4 + n_ands as u32;
+        let root = 7u32;
         let cut = any_cut(root);
         kani::assume(covered(&aig, &cut, root));
         let r = compute_cut_tt(&aig, root, &cut);
@@ -1002,18 +1004,22 @@ pub mod hx_rewrite {
             assert!(((tt >> m) & 1 == 1) == cone_value(&aig, &cut, root, m), "compute_cut_tt: bit m != value of the cone on minterm m");
         }
     }
-    /// bounded: truth table of a root over <= 4 cut leaves equals graph evaluation on all 16 leaf assignments
-    #[vp_bounded(7)]
-    pub fn compute_cut_tt_is_cone_function_2_ands() {
-        cut_tt(2, false);
+    /// bounded: truth table of a root over <= 4 cut leaves equals graph evaluation on all 16 leaf assignments; shapes: balanced over 4 inputs,
+    /// XOR/MUX shape (shared inputs), chain, reconvergent (memo hit), constant fanin
+    #[vp_bounded(11)]
+    pub fn compute_cut_tt_is_cone_function_balanced_and_shared() {
+        cut_tt([(1, 2), (3, 4), (5, 6)], false);
+        cut_tt([(1, 2), (1, 2), (5, 6)], false);
     }
-    #[vp_bounded(7)]
-    pub fn compute_cut_tt_is_cone_function_3_ands() {
-        cut_tt(3, false);
+    #[vp_bounded(11)]
+    pub fn compute_cut_tt_is_cone_function_chain_and_reconvergent() {
+        cut_tt([(1, 2), (5, 3), (6, 4)], false);
+        cut_tt([(1, 2), (5, 3), (5, 6)], false);
+        cut_tt([(0, 1), (2, 5), (6, 1)], false);
     }
-    #[vp_bounded(7)]
+    #[vp_bounded(11)]
     pub fn canary_compute_cut_tt_reaches_xor() {
-        cut_tt(3, true);
+        cut_tt([(1, 2), (1, 2), (5, 6)], true);
     }
 }
 
@@ -1027,9 +1033,9 @@ pub mod hx_rewrite_lib {
     use crate::npn4::hx_npn4::{any_pattern_upto3, any_transform};
     use crate::npn4::NpnTransform;
     use crate::oracle;
-    use crate::rewrite::hx_rewrite::{any_dest, frame, frame_kept};
-    use crate::sem::*;
-    use crate::spec::{assignment, npn_value_at, pattern_value_at, value_at, wf_pattern};
+    use crate::sem::any_edge;
+    use crate::spec::{npn_value_at, pattern_value_at, value_at, wf_pattern};
+    use crate::valaig::VN;
 
     /// one cut of the root with everything try_library_rewrite learns about it
     struct CutCase {
@@ -1074,22 +1080,29 @@ pub mod hx_rewrite_lib {
         leaves.truncate(c.nl);
         Cut { leaves, cone_size: c.cone_size }
     }
-    fn any_new_edges(hi: u8) -> Vec<Option<AigEdge>> {
-        let mut ne = Vec::with_capacity(6);
+    /// the new AIG while rewriting: 6 existing nodes with symbolic values (node 0 = constant false), and the map old node -> new edge for old nodes 0..=5
+    fn any_dest() -> (AigModule, [Option<AigEdge>; 6]) {
+        let mut vals: [bool; VN] = kani::any();
+        vals[0] = false;
+        let ne = [Some(any_edge(5)), Some(any_edge(5)), Some(any_edge(5)), Some(any_edge(5)), Some(any_edge(5)), Some(any_edge(5))];
+        (AigModule::with_values(vals, 6), ne)
+    }
+    fn frame_kept(m: &AigModule, before: &[bool; VN]) -> bool {
+        let mut ok = m.n >= 6;
         let mut i = 0;
         while i < 6 {
-            ne.push(Some(any_edge(hi)));
+            ok &= m.vals[i] == before[i];
             i += 1;
         }
-        ne
+        ok
     }
     /// values the new AIG gives to the mapped cut leaves (padding = leaf 0, as the code pads)
-    fn leaf_values(c: &CutCase, ne: &[Option<AigEdge>], v: &[bool; MAXN]) -> [bool; 4] {
+    fn leaf_values(c: &CutCase, ne: &[Option<AigEdge>; 6], m: &AigModule) -> [bool; 4] {
         let mut z = [false; 4];
         let mut i = 0;
         while i < 4 {
             let k = if i < c.nl { i } else { 0 };
-            z[i] = edge_val(v, ne[c.leaves[k] as usize].unwrap());
+            z[i] = m.value(ne[c.leaves[k] as usize].unwrap());
             i += 1;
         }
         z
@@ -1127,22 +1140,18 @@ pub mod hx_rewrite_lib {
     pub fn try_library_rewrite_computes_cut_function() {
         oracle::reset();
         let c = any_case(0);
-        let mut new_aig = any_dest();
-        let hi = (new_aig.nodes.len() - 1) as u8;
-        let ne = any_new_edges(hi);
-        let inp: [bool; MAXN] = kani::any();
-        let old = AigModule::new();
-        let before = frame(&new_aig);
-        let v0 = node_values(&new_aig, &inp);
-        let cuts = vec![cut_of(&c)];
+        let (mut new_aig, ne) = any_dest();
+        let before = new_aig.vals;
+        let old = AigModule::with_values([false; VN], 1);
+        let z = leaf_values(&c, &ne, &new_aig);
+        let cuts = [cut_of(&c)];
         let r = try_library_rewrite(&mut new_aig, &old, 6, &cuts, &ne);
         assert!(frame_kept(&new_aig, &before), "try_library_rewrite changed an existing node of the new AIG");
         if let Some(e) = r {
             assert!(c.nl >= 2 && c.nl <= 4, "a cut with < 2 or > 4 leaves was used");
             assert!((c.pat.size() as u32) < c.cone_size, "a pattern that is not smaller than the cone was used");
-            let want = promised(&c, leaf_values(&c, &ne, &v0));
-            let v = node_values(&new_aig, &inp);
-            assert!(edge_val(&v, e) == want, "try_library_rewrite: the replacement edge does not compute the cut function on the mapped leaves");
+            let want = promised(&c, z);
+            assert!(new_aig.value(e) == want, "try_library_rewrite: the replacement edge does not compute the cut function on the mapped leaves");
         }
     }
     /// canary: a three-gate replacement over four leaves is reachable (must FAIL)
@@ -1150,14 +1159,11 @@ pub mod hx_rewrite_lib {
     pub fn canary_try_library_rewrite_replaces() {
         oracle::reset();
         let c = any_case(0);
-        let mut new_aig = any_dest();
-        let hi = (new_aig.nodes.len() - 1) as u8;
-        let ne = any_new_edges(hi);
-        let old = AigModule::new();
-        let n0 = new_aig.nodes.len();
-        let cuts = vec![cut_of(&c)];
+        let (mut new_aig, ne) = any_dest();
+        let old = AigModule::with_values([false; VN], 1);
+        let cuts = [cut_of(&c)];
         let r = try_library_rewrite(&mut new_aig, &old, 6, &cuts, &ne);
-        assert!(!(r.is_some() && c.nl == 4 && new_aig.nodes.len() == n0 + 3));
+        assert!(!(r.is_some() && c.nl == 4 && new_aig.mk_and_calls == 3));
     }
     /// two cuts of the same root (their tables describe the same root value on the mapped leaves): whichever wins the size comparison, the edge is right
     #[vp_proof(17)]
@@ -1167,23 +1173,49 @@ pub mod hx_rewrite_lib {
         let c1 = any_case(1);
         // both cuts reach compute_cut_tt (the oracle hands out slots in call order); the skip conditions are covered by the one-cut harness
         kani::assume(c0.nl >= 2 && c0.nl <= 4 && c1.nl >= 2 && c1.nl <= 4);
-        let mut new_aig = any_dest();
-        let hi = (new_aig.nodes.len() - 1) as u8;
-        let ne = any_new_edges(hi);
-        let inp: [bool; MAXN] = kani::any();
-        let old = AigModule::new();
-        let v0 = node_values(&new_aig, &inp);
-        let want = promised(&c0, leaf_values(&c0, &ne, &v0));
-        kani::assume(want == promised(&c1, leaf_values(&c1, &ne, &v0)));
-        let cuts = vec![cut_of(&c0), cut_of(&c1)];
+        let (mut new_aig, ne) = any_dest();
+        let old = AigModule::with_values([false; VN], 1);
+        let want = promised(&c0, leaf_values(&c0, &ne, &new_aig));
+        kani::assume(want == promised(&c1, leaf_values(&c1, &ne, &new_aig)));
+        let cuts = [cut_of(&c0), cut_of(&c1)];
         if let Some(e) = try_library_rewrite(&mut new_aig, &old, 6, &cuts, &ne) {
-            let v = node_values(&new_aig, &inp);
-            assert!(edge_val(&v, e) == want, "try_library_rewrite (two cuts): the chosen edge does not compute the root function");
+            assert!(new_aig.value(e) == want, "try_library_rewrite (two cuts): the chosen edge does not compute the root function");
         }
     }
 }
 
 //@@ section tail
+/// stand-in for AigModule inside module rewrite_lib: implements exactly the CONTRACT of mk_and that harness mk_and_value_frame_and_sharing proves for the real
+/// function (value(result) == value(a) & value(b), older nodes untouched, result is an edge onto an existing node) in its simplest form: every call appends a node and
+/// records its value under the (symbolic) assignment chosen by the harness. try_library_rewrite / instantiate_pattern are verified against that contract.
+pub mod valaig {
+    use crate::graph::AigEdge;
+    pub const VN: usize = 10;
+    pub struct AigModule {
+        pub vals: [bool; VN],
+        pub n: usize,
+        pub mk_and_calls: usize,
+    }
+    impl AigModule {
+        /// nodes 0..n with the given values (node 0 must be false)
+        pub fn with_values(vals: [bool; VN], n: usize) -> Self {
+            AigModule { vals, n, mk_and_calls: 0 }
+        }
+        pub fn value(&self, e: AigEdge) -> bool {
+            assert!((e.node() as usize) < self.n, "edge onto a node that does not exist");
+            self.vals[e.node() as usize] ^ e.is_negated()
+        }
+        pub fn mk_and(&mut self, a: AigEdge, b: AigEdge) -> AigEdge {
+            let v = self.value(a) & self.value(b);
+            assert!(self.n < VN, "valaig stand-in: capacity exceeded");
+            self.vals[self.n] = v;
+            self.n += 1;
+            self.mk_and_calls += 1;
+            AigEdge::new((self.n - 1) as u32, false)
+        }
+    }
+}
+
 /// stand-ins for npn4::npn_canonical / npn4::lookup_canonical / compute_cut_tt inside module rewrite_lib: they hand out what the harness stored
 /// (per call slot, in call order of the cut loop); the constraints (t.apply(tt) == canonical, pattern.tt() == canonical) are imposed by the harness
 pub mod oracle {
